@@ -728,6 +728,10 @@ def _correspondence(ctx):
             ctx.mismatch("rrsgen.line (translated _parse_rfc_rrule)", q, canon_impl(res, g), g)
     ctx.traces += len(gen_line); ctx.count("gen_rule_line_cases", len(gen_line))
     got = ctx.driver(reqs)
+    # the translated __call__ (a pure delegation) must answer every request exactly like the model of _parse_rfc it delegates to
+    for q, g, g2 in zip(reqs, got, ctx.driver([q.replace("rrs.parse ", "rrsgen.call ", 1) for q in reqs])):
+        if g != g2:
+            ctx.mismatch("rrsgen.call (translated _rrulestr.__call__)", q, g, g2)
     for q, res, g in zip(reqs, impl, got):
         e = canon_impl(res, g)
         g2 = g
